@@ -11,6 +11,11 @@ def construct(Y, ctor):
         return Y.URL(ctor[1])
     if kind == "enc":
         return Y.URL(ctor[1], encoded=True)
+    if kind == "split":
+        from urllib.parse import SplitResult
+        return Y.URL(SplitResult(*ctor[1]), encoded=True)
+    if kind == "self":
+        return Y.URL(Y.URL(ctor[1]))
     if kind == "build":
         kw = dict(ctor[1])
         if isinstance(kw.get("query"), list):
@@ -136,4 +141,6 @@ def program(txt=None, hosts=None, max_ops=3, encoded_ctor=False, with_join=True,
     ]
     if encoded_ctor:
         ctors.append(gen.url_string(txt, hosts=hosts, schemes=schemes).map(lambda s: ["enc", s]))
+        ctors.append(st.tuples(gen.scheme(mixed_case=False), st.one_of(st.just(""), gen.host_text(idn=False)), txt.map(lambda s: "/" + s), txt, txt).map(lambda t: ["split", list(t)]))
+        ctors.append(gen.url_string(txt, hosts=hosts, schemes=schemes).map(lambda s: ["self", s]))
     return st.fixed_dictionaries({"ctor": st.one_of(*ctors), "ops": st.lists(op(txt, hosts, with_join), max_size=max_ops)})
